@@ -635,6 +635,24 @@ func clusterRoles(c *common.Ctx, r *common.Rand, idx int) error {
 	if err != nil {
 		return err
 	}
+	// what is scoped to the primary role is over, from the first instant, on a node that does not hold it: a
+	// primary-scoped context obtained on a replica is done when it is handed out (not a moment later)
+	for _, nd := range []*cluster.Node{b, n} {
+		late := 0
+		for i := 0; i < 400; i++ {
+			pctx := nd.Store.PrimaryCtx(context.Background())
+			select {
+			case <-pctx.Done():
+			default:
+				late++
+			}
+		}
+		c.Evaluations++
+		c.Distinct("primary-ctx-on-replica:" + nd.Name)
+		if late > 0 && !nd.Store.IsPrimary() {
+			c.Violate("C08:primary-ctx:live-on-replica", fmt.Sprintf("node %s is a replica; %d of 400 primary-scoped contexts obtained from it were still live when handed out", nd.Name, late), map[string]any{"kind": "primary-ctx-on-replica", "node": nd.Name})
+		}
+	}
 	h := hist.NewOn(c, r.Fork(), hist.Config{PageSize: 512}, a.Store, a.Exits, "db", nil, 0, false)
 	for tries, done := 0, 0; tries < 100 && done < 2; tries++ {
 		st := h.GenStep()
